@@ -48,6 +48,10 @@ type Base struct {
 	FollowGo bool // interpret `go func(){...}()` bodies in the state of the go statement
 	noAlias  bool
 	Inline  map[string]bool // funcKeys of callees to inline
+	// AutoInline, when set, is asked about every module function whose call no hook
+	// handled: true means "interpret its body in the caller's context" (helpers that a
+	// refactoring extracted must not blind a rule).  Recursion and depth are bounded.
+	AutoInline func(fi *FuncInfo) bool
 	exprs  []ast.Expr
 	exprID map[ast.Expr]int
 }
@@ -1443,7 +1447,36 @@ func (b *Base) call(x *Exec, call *ast.CallExpr, lhs []ast.Expr, s St) ([]St, bo
 			return b.InlineCall(x, call, fi, lhs, s), true
 		}
 	}
+	if b.AutoInline != nil && x.Depth < 3 {
+		if f := Callee(x.Fn.Info, call); f != nil {
+			if fi := x.Fn.P.FuncOf(f); fi != nil && fi.Decl.Body != nil && b.AutoInline(fi) {
+				callee := x.Fn.P.FlowOf(fi)
+				for y := x; y != nil; y = y.Parent {
+					if y.Fn == callee {
+						return nil, false
+					}
+				}
+				return b.InlineCall(x, call, fi, lhs, s), true
+			}
+		}
+	}
 	return nil, false
+}
+
+// localHelpers returns an AutoInline predicate: the unexported functions and
+// methods of the package with the given path suffix, except the listed keys.
+func localHelpers(p *Prog, pkgSuffix string, except ...string) func(fi *FuncInfo) bool {
+	ex := map[string]bool{}
+	for _, e := range except {
+		ex[e] = true
+	}
+	return func(fi *FuncInfo) bool {
+		if fi.Pkg == nil || !strings.HasSuffix(fi.Pkg.PkgPath, pkgSuffix) || ex[fi.Key] {
+			return false
+		}
+		n := fi.Decl.Name.Name
+		return n != "" && !ast.IsExported(n)
+	}
 }
 
 // resultTerm names result i of fn: the named result variable, else "$ret<i>@<fnpos>".
